@@ -177,3 +177,68 @@ package render
 //@ loop 1 invariant copied: forall(k, "Str", visited(k) ==> has(vars, k) && vars[k] == scope[k])
 //@ loop 1 invariant subset: forall(k, "Str", has(vars, k) ==> visited(k) && has(scope, k))
 //@ loop 1 invariant fresh: fresh(vars)
+
+// ---- locations of render nodes (promoted Token methods) --------------------------------
+//@ globalinv render.invalidLoc: self == box(mk$render.invalidLocation(), render.invalidLocation)
+//@ typeinv render.TagNode: true
+//@ typeinv render.BlockNode: true
+//@ typeinv render.TextNode: true
+//@ typeinv render.ObjectNode: true
+
+//@ func (render.invalidLocation).SourceLocation
+//@ pure
+//@ props C07 C01
+//@ ensures zero: result.Pathname == "" && result.LineNo == 0
+
+//@ func (render.invalidLocation).SourceText
+//@ pure
+//@ props C07 C01
+//@ ensures empty: result == ""
+
+//@ func (*render.TagNode).SourceLocation
+//@ reads
+//@ props C07 C01
+//@ assigns nothing
+//@ ensures def: result == c.Token.SourceLoc
+
+//@ func (*render.TagNode).SourceText
+//@ reads
+//@ props C07 C01
+//@ assigns nothing
+//@ ensures def: result == c.Token.Source
+
+//@ func (*render.BlockNode).SourceLocation
+//@ reads
+//@ props C07 C01
+//@ assigns nothing
+//@ ensures def: result == c.Token.SourceLoc
+
+//@ func (*render.BlockNode).SourceText
+//@ reads
+//@ props C07 C01
+//@ assigns nothing
+//@ ensures def: result == c.Token.Source
+
+//@ func (*render.TextNode).SourceLocation
+//@ reads
+//@ props C07 C01
+//@ assigns nothing
+//@ ensures def: result == c.Token.SourceLoc
+
+//@ func (*render.TextNode).SourceText
+//@ reads
+//@ props C07 C01
+//@ assigns nothing
+//@ ensures def: result == c.Token.Source
+
+//@ func (*render.ObjectNode).SourceLocation
+//@ reads
+//@ props C07 C01
+//@ assigns nothing
+//@ ensures def: result == c.Token.SourceLoc
+
+//@ func (*render.ObjectNode).SourceText
+//@ reads
+//@ props C07 C01
+//@ assigns nothing
+//@ ensures def: result == c.Token.Source
